@@ -8,7 +8,7 @@
    allocation failure and stack depth are exercised by the malformed-input stream of the
    correspondence (debug build), not proved. *)
 From WB Require Import Base.Str Base.Json Model.Key Model.Store Model.Entry Model.Core Model.Codec Model.Session
-  Proofs.CoreFacts Proofs.C01Proof Proofs.C17Proof Proofs.SessionFacts Proofs.LockHistory Proofs.NoCrash Proofs.WorldCore Model.Rest Model.RestWorld Proofs.WorldRest.
+  Proofs.CoreFacts Proofs.C01Proof Proofs.C17Proof Proofs.SessionFacts Proofs.LockHistory Proofs.NoCrash Proofs.WorldCore Model.Rest Model.RestWorld Proofs.WorldRest Model.Conc Proofs.ConcFacts.
 
 Theorem C17_data_request_no_crash :
   forall s o, Inv s -> c01_op o -> import_ok o ->
@@ -84,6 +84,18 @@ Theorem C17_mixed_never_crashes :
     nocrash (trace init (wops_hist (world_init auth) xs)) /\ Inv (w_core (wfinal' (world_init auth) xs)).
 Proof. exact mixed_never_crashes. Qed.
 Print Assumptions C17_mixed_never_crashes.
+
+(* ---- the core task never waits on a channel nobody reads (Proofs/ConcFacts.v) ----
+   The channels of the code are bounded and the core task awaits room in them.  Every channel has a reader that can
+   always make progress (a forwarding task), except the channel of a subscription while the subscribe request itself
+   is being served: its receiver travels back with the answer.  What the core puts into it during that request is at
+   most ONE item, whatever the size of the store (the snapshot is one message), and the capacity is at least one: the
+   core cannot block there.  (Whether a forwarding task makes progress depends on the client reading its socket or the
+   send timeout closing it: runtime, exercised by the `bulk` cases with capacity 1, 2 and 4.) *)
+Theorem C17_subscribe_fits_its_channel :
+  forall s o i, o_res (snd (step s o)) = RSub i -> (length (for_inst i (items_of (snd (step s o)))) <= 1)%nat.
+Proof. exact subscribe_fits. Qed.
+Print Assumptions C17_subscribe_fits_its_channel.
 
 Theorem C17_overflow_refuted : exists cur v, decide cur (Cas v u64_max) false = DCrash.
 Proof. exists (Some (Cas JNull u64_max)), JNull. reflexivity. Qed.
